@@ -2,9 +2,10 @@ use vcore::front::{self, Project};
 fn main() {
   let seed0: u64 = std::env::args().nth(1).and_then(|s| s.parse().ok()).unwrap_or(1);
   let mut bad = 0;
-  for seed in seed0..seed0 + 400 {
+  for seed in seed0..seed0 + 200 {
     let mut rng = vcore::rng::Rng::new(seed);
-    let t = vcore::exprgen::binder_zoo(&mut rng);
+    let t = vcore::exprgen::generic_zoo(&mut rng);
+    if seed == seed0 { println!("{t}"); }
     let p = Project::single("Zoo", &t).with_std();
     let mut heap = samlang_heap::Heap::new();
     let c = front::check_project(&mut heap, &p);
@@ -18,5 +19,5 @@ fn main() {
       }
     }
   }
-  println!("rejected {bad} of 400");
+  println!("rejected {bad} of 200");
 }
